@@ -36,6 +36,8 @@ Definition expected_fingerprints : list (string * string) := [
   ("python_dsakey.py:Python_DSAKey.verify", "624597cfc50507c2");
   ("python_dsakey.py:Python_DSAKey.hashAndSign", "ce8bcedfcb353606");
   ("python_dsakey.py:Python_DSAKey.hashAndVerify", "8923a87b6397cca1");
+  ("python_dsakey.py:Python_DSAKey.generate", "e8013bfc3df9e26e");
+  ("python_dsakey.py:Python_DSAKey.generate_qp", "5f166df08c9e8d70");
   ("python_rsakey.py:Python_RSAKey._rawPrivateKeyOp", "21ec51fc9e09cfe1");
   ("python_rsakey.py:Python_RSAKey._rawPrivateKeyOpHelper", "35769c37e4fcadbd");
   ("python_rsakey.py:Python_RSAKey._rawPublicKeyOp", "5438ac819f318ef5");
@@ -43,12 +45,12 @@ Definition expected_fingerprints : list (string * string) := [
   ("rsakey.py:RSAKey.hashAndVerify", "ea026835a7c1c057");
   ("rsakey.py:RSAKey.MGF1", "903d7055670b52ce");
   ("rsakey.py:RSAKey.EMSA_PSS_encode", "3be4a14cd632476d");
-  ("rsakey.py:RSAKey.RSASSA_PSS_sign", "28a314875040cd9f");
+  ("rsakey.py:RSAKey.RSASSA_PSS_sign", "1a4c7804efc928aa");
   ("rsakey.py:RSAKey.EMSA_PSS_verify", "85a6ba3370fc745a");
-  ("rsakey.py:RSAKey.RSASSA_PSS_verify", "e46282d91c067985");
-  ("rsakey.py:RSAKey._raw_pkcs1_sign", "c8c0745fd10ad62a");
+  ("rsakey.py:RSAKey.RSASSA_PSS_verify", "dcf6f087a0b4ea2f");
+  ("rsakey.py:RSAKey._raw_pkcs1_sign", "4fe802ef16022440");
   ("rsakey.py:RSAKey.sign", "0fd99480ae288237");
-  ("rsakey.py:RSAKey._raw_pkcs1_verify", "e688555256e0096c");
+  ("rsakey.py:RSAKey._raw_pkcs1_verify", "3f01b1c778227d53");
   ("rsakey.py:RSAKey.verify", "38c2730b142c4784");
   ("rsakey.py:RSAKey._raw_private_key_op_bytes", "dd192fd5222fa7de");
   ("rsakey.py:RSAKey._raw_public_key_op_bytes", "92a8583595f6434b");
@@ -74,9 +76,7 @@ Proof. split; vm_compute; reflexivity. Qed.
 Lemma sources_unchanged : src_fingerprints = expected_fingerprints.
 Proof. reflexivity. Qed.
 
-(* which callers let TLSInternalError escape without an alert: the SRP server path (signing with
-   SRP_SHA_RSA / SRP_SHA_DSS suites) and the anonymous path (which never signs) *)
-Lemma unhandled_callers_are :
-  unhandled_callers = [("makeServerKeyExchange", "_serverSRPKeyExchange");
-                       ("makeServerKeyExchange", "_serverAnonKeyExchange")].
+(* every caller of a helper whose signing site raises TLSInternalError turns it into an
+   internal_error alert (since /repo dd1d1cb; before, the SRP and anonymous server paths did not) *)
+Lemma unhandled_callers_are : unhandled_callers = [].
 Proof. vm_compute. reflexivity. Qed.
